@@ -1,5 +1,6 @@
 CONSTANTS
     K = 4
+    Bases = {"idle", "deliver", "header", "body2"}
     Bug = {}
 SPECIFICATION GSpec
 VIEW View
